@@ -197,6 +197,9 @@ func (ev *evaluator) rangeStmt(n *Range) {
 		ev.fail(n, true, "two-variable range over a ranger without index")
 	}
 	bind := func(name string, v Value) {
+		if name == "_" {
+			return
+		}
 		if n.Assign {
 			ev.assign(name, v, n)
 		} else {
